@@ -4,6 +4,7 @@
 mod enc;
 mod fmtop;
 mod frameop;
+mod libpar;
 mod gen;
 mod mock;
 mod parseop;
@@ -75,6 +76,24 @@ impl Out {
             None => writeln!(self.expect, "-").unwrap(),
             Some(m) => writeln!(self.expect, "!{}", m.replace('\n', " ")).unwrap(),
         }
+        self.n += 1;
+    }
+    fn libpar(&mut self, c: &libpar::LibCase) {
+        writeln!(self.cases, "{}", c.line).unwrap();
+        writeln!(self.imp, "accept").unwrap();
+        writeln!(self.tags, "{}", c.tag).unwrap();
+        match &c.oracle {
+            None => writeln!(self.expect, "-").unwrap(),
+            Some(m) => writeln!(self.expect, "!C17|{}", m).unwrap(),
+        }
+        self.n += 1;
+    }
+    /// the name the library gave the database of the k-th file, against the model's `libDbName`
+    fn libname(&mut self, path: &str, k: usize, actual: &str) {
+        writeln!(self.cases, "libname {} {}", enc::hx(path), k).unwrap();
+        writeln!(self.imp, "{}", enc::hx(actual)).unwrap();
+        writeln!(self.tags, "c17lib database name").unwrap();
+        writeln!(self.expect, "-").unwrap();
         self.n += 1;
     }
     fn frame(&mut self, c: &frameop::FrameCase) {
@@ -243,6 +262,17 @@ fn gen_profile(profile: &str, seed: u64, n: usize, thorough: bool, out: &mut Out
         "c12" => {
             for _ in 0..n {
                 out.script(&gen::gen_c12(&mut r));
+            }
+        }
+        "c17lib" => {
+            for i in 0..n {
+                let c = libpar::gen_libpar(&mut r, i);
+                out.libpar(&c);
+                if i % 10 == 0 {
+                    for (p, k, d) in &c.names {
+                        out.libname(p, *k, d);
+                    }
+                }
             }
         }
         "c20" => {
@@ -466,6 +496,9 @@ fn replay_line(line: &str) -> String {
         "parse" => parseop::run_parse(t[1] == "1", &enc::unhx(t[2])),
         "fmt" => fmtop::run_fmt(&enc::unhx(t[1])).0,
         "testdir" => script::run_testdir_probe(t[1].parse().unwrap_or(2)),
+        // the recorded event log is the replay (the tag names the seeds that regenerate the run)
+        "libmon" => "accept".into(),
+        "libname" => libpar::replay_name(&enc::unhx(t[1]), t[2].parse().unwrap_or(0)),
         _ => "unknown-op".into(),
     }
 }
